@@ -11,19 +11,22 @@ from ..cfg import walk_own
 from ..core import PKG, Report
 from ..domain import is_esc
 from .registries import _bind_full, _locals, _own_nodes, callers_of, receiver_classes
+from .c10 import generated_variants
 from .siblings import Path as SimPath
 from .siblings import PathSim, _class_names, _strip, enum_builder_parity, enum_merge_parity, inline_tail_calls
 
-LEVEL = ("structural clauses: semantic facts of each enum builder and of each enum merge function, checked per sibling by simulating "
-         "its control flow under scenarios (null extraction by identity, only-null -> NoneProperty, single supported value type, null "
+LEVEL = ("structural clauses: semantic facts of each enum builder and of merge_properties per enum class (private helpers written out in "
+         "place wherever they are called, loops over constant tables unrolled, record fields and lambdas held in them followed; the merge "
+         "is simulated for every property class of the package on the other side), checked by simulating "
+         "the control flow under scenarios (null extraction by identity, only-null -> NoneProperty, single supported value type, null "
          "member -> nullable union, members from the null-free list, a taken class name reused only by the same class with the same "
          "member table, default converted before registration; subset merge in both directions, value-type compatibility); "
          "every store of a member name (paths of values_from_list simulated for int / str members x duplicate found / not) is preceded by a "
          "duplicate test on the very key that is stored or names an integer member injectively, a found duplicate ends in a "
          "diagnostic; closed decode (enum construct calls the class, the "
-         "literal check function tests membership and its fall-through raises, the const decoder - read as Python under every "
-         "assignment of the template conditions - raises whenever a present value differs from the constant), encode is "
-         ".value / identity in every encoder macro, str(<member>) only together with a __str__ of the generated class that returns the "
+         "literal check function tests membership and its fall-through raises, the const decoder - the code the macro generates under every "
+         "assignment of the template conditions, macro calls followed and `set` variables read as their definitions - raises whenever a "
+         "present value differs from the constant), encode is .value / identity in every encoder macro (same reading), str(<member>) only together with a __str__ of the generated class that returns the "
          "value; member values reach the class through a string context with a single escaping (label analysis of the "
          "emission site), Literal members through repr only; nobody adds to the declared values (every write to the enum field of a "
          "schema stores None or a selection of the old list).")
@@ -47,27 +50,31 @@ def run(rep: Report, ctx: Any) -> str:
     ct = jx.templates.get("property_templates/const_property.py.jinja")
     le = jx.templates.get("literal_enum.py.jinja")
     rep.require(et and lt and ct and le, "enum / const templates")
-    cf = tplq.macro_frags(et, "construct_function")
-    txt = "".join(f_.text if f_.kind == "data" else "{" + f_.text + "}" for f_ in cf)
-    rep.check(bool(re.fullmatch(r"\s*\{property\.class_info\.name\}\(\{source\}\)\s*", txt)), "R14.3", "enum_property::construct_function",
-              "decoding an enum no longer calls the enum class on the wire value", where=f"{PKG}/templates/{et.name}", lhs=txt.strip(),
+    # what a macro generates is read per valuation of the template conditions, macro calls / call blocks followed, `set` variables
+    # read as their definitions (c10.generated_variants): the text is the same however the template is cut into pieces
+    def decoder_calls(ti: Any, callee_ok: Any) -> "tuple[bool, list[str]]":
+        m_ = ti.macros.get("construct_function")
+        vs = generated_variants(m_, ti, jx, _roles({"source": "SOURCE", "property.class_info.name": "CLASS"})) if m_ is not None else None
+        shown_, ok_ = [], bool(vs)
+        for _, text in vs or []:
+            shown_.append(" ".join(text.split())[:80])
+            try:
+                e = ast.parse(text.strip(), mode="eval").body
+            except SyntaxError:
+                ok_ = False
+                continue
+            ok_ = ok_ and isinstance(e, ast.Call) and not e.keywords and len(e.args) == 1 and isinstance(e.args[0], ast.Name) and \
+                e.args[0].id == "SOURCE" and isinstance(e.func, ast.Name) and callee_ok(e.func.id)
+        return ok_, shown_[:2]
+
+    ok, shown = decoder_calls(et, lambda fn_: fn_ == "CLASS")
+    rep.check(ok, "R14.3", "enum_property::construct_function",
+              "decoding an enum no longer calls the enum class on the wire value", where=f"{PKG}/templates/{et.name}", lhs=shown,
               rhs="<Class>(<source>)")
-    # every arm of transform (required / optional property) writes `<source>.value`, whether the text is held in a `set` variable
-    # (its canonical name is its definition), built in the output expression or written out in the template text
-    arms: dict[bool, list[str]] = {True: [], False: []}
-    for f_ in tplq.macro_frags(et, "transform"):
-        names = tplq.guard_atoms(f_)
-        for req in (True, False):
-            if "property.required" not in names or any(tplq.guard_holds(f_, e) for e in tplq.assignments(names) if e["property.required"] == req):
-                arms[req].append(f_.text)
-    ok = all(".value" in "".join(ts) for ts in arms.values())
-    rep.check(ok, "R14.3", "enum_property::transform", "encoding an enum no longer uses `.value`", where=f"{PKG}/templates/{et.name}",
-              lhs=[t.strip()[:60] for ts in arms.values() for t in ts if ".value" in t][:2], rhs="source + '.value'")
     _enum_encoders(rep, jx, et)
-    cf2 = tplq.macro_frags(lt, "construct_function")
-    txt2 = "".join(f_.text if f_.kind == "data" else "{" + f_.text + "}" for f_ in cf2)
-    rep.check("check_{" in txt2 and "({source})" in txt2, "R14.3", "literal_enum_property::construct_function",
-              "decoding a literal enum no longer goes through its check_ function", where=f"{PKG}/templates/{lt.name}", lhs=txt2.strip(),
+    ok, shown = decoder_calls(lt, lambda fn_: fn_.startswith("check_"))
+    rep.check(ok, "R14.3", "literal_enum_property::construct_function",
+              "decoding a literal enum no longer goes through its check_ function", where=f"{PKG}/templates/{lt.name}", lhs=shown,
               rhs="check_<name>(<source>)")
     # the check function itself, read as the Python it is (template expressions stand for a name): on every path a value that is in
     # the value set is returned and a value that is not ends in a raise - whatever the order of the two and the polarity of the test
@@ -77,7 +84,7 @@ def run(rep: Report, ctx: Any) -> str:
     # the const decoder, read as the Python it is under every assignment of the template's conditions: with a value present that
     # differs from the constant every path ends in a raise - wherever the guard for an unset optional value is written, whatever
     # the polarity of the comparison
-    ok, shown = _const_check_closed(ct)
+    ok, shown = _const_check_closed(ct, jx)
     rep.check(ok, "R14.3", "const_property::construct", "decoding a const does not, under every condition of the template, compare the "
               "value with the constant and raise when they differ", where=f"{PKG}/templates/{ct.name}", lhs=shown,
               rhs="required and optional alike: value present and != <const> -> raise")
@@ -201,21 +208,33 @@ def _as_python(frs: list[Any], env: "dict[str, bool] | None", names: "dict[str, 
     return "".join(out)
 
 
-def _const_check_closed(ct: Any) -> "tuple[bool, str | None]":
-    frs = tplq.macro_frags(ct, "construct")
-    atoms_: list[str] = []
-    for f_ in frs:
-        atoms_ += [a for a in tplq.guard_atoms(f_) if a not in atoms_]
-    if not frs or len(atoms_) > 8:
+def _roles(table: dict[str, str]) -> Any:
+    """role function for c10.generated_variants: an expression whose text (parentheses of a canonical `set` name apart) is in the
+    table reads as that placeholder"""
+    def role(e: Any, text: str, at: int, tev: Any) -> "str | None":
+        t = text.strip()
+        while t.startswith("(") and t.endswith(")") and t[1:-1] in table:
+            t = t[1:-1]
+        return table.get(t)
+
+    return role
+
+
+def _const_check_closed(ct: Any, jx: Any) -> "tuple[bool, str | None]":
+    m = ct.macros.get("construct")
+    vs = generated_variants(m, ct, jx, _roles({"property.python_name": "VALUE", "source": "SOURCE", "property.value.python_code": "CONST"}),
+                            limit=8) if m is not None else None
+    if not vs:
         return False, "construct macro missing or too many conditions"
-    roles = {"property.python_name": "VALUE", "source": "SOURCE", "property.value.python_code": "CONST"}
 
     def subject(e: ast.expr) -> bool:
         e = _strip(e)
         return isinstance(e, ast.Name) and e.id in ("VALUE", "SOURCE")
 
-    for env in tplq.assignments(atoms_):
-        body = _as_python(frs, env, roles)
+    for env, body in vs:
+        import textwrap
+
+        body = textwrap.dedent("\n".join(ln for ln in body.splitlines() if ln.strip()))
         text = "def f():\n" + "".join("    " + ln + "\n" for ln in body.splitlines()) + "    pass\n"
         shown = ", ".join(f"{k}={v}" for k, v in env.items())
         try:
@@ -287,22 +306,19 @@ def _member_uses(text: str) -> "set[str] | None":
 
 def _enum_encoders(rep: Report, jx: Any, et: Any) -> None:
     """every encoder of the enum property template (the macros that turn a member into what is sent: transform*) writes the member's
-    `.value`; one that writes str(<member>) leaves the conversion to the generated class, so the class templates must define __str__ and
-    return the value from it (str() of an Enum member is otherwise not its value)"""
+    `.value` - under every valuation of the template's conditions (required and optional property alike).  One that writes
+    str(<member>) leaves the conversion to the generated class, so the class templates must define __str__ and return the value from it
+    (str() of an Enum member is otherwise not its value); `transform` builds the JSON value, where str() of an integer member would not
+    do: it needs `.value`"""
     n_enc = 0
     relies_on_str: list[str] = []
     for name in sorted(et.macros):
         if not name.startswith("transform"):
             continue
-        frs = tplq.macro_frags(et, name)
-        atoms_: list[str] = []
-        for f_ in frs:
-            atoms_ += [a for a in tplq.guard_atoms(f_) if a not in atoms_]
-        if len(atoms_) > 8:
-            atoms_ = []
+        vs = generated_variants(et.macros[name], et, jx, _roles({"source": "SOURCE", "destination": "DEST"}), limit=8)
+        rep.require(vs is not None, f"an encoder `{name}` of the enum template that depends on at most 8 conditions")
         bad = []
-        for env in (tplq.assignments(atoms_) if atoms_ else [None]):
-            text = _as_python(frs, env, {"source": "SOURCE"})
+        for env, text in vs or []:
             uses = _member_uses(text)
             if uses is None:
                 flat = re.sub(r"\s", "", text)
@@ -310,11 +326,13 @@ def _enum_encoders(rep: Report, jx: Any, et: Any) -> None:
                 uses = uses or {"other"}
             if "str" in uses:
                 relies_on_str.append(name)
-            if "other" in uses or not uses:
-                bad.append((", ".join(f"{k}={v}" for k, v in (env or {}).items()) or "always") + ": " + " ".join(text.split())[:60])
+            if "other" in uses or not uses or (name == "transform" and uses != {"value"}):
+                bad.append((", ".join(f"{k}={v}" for k, v in env.items()) or "always") + ": " + " ".join(text.split())[:60])
         n_enc += 1
         if name == "transform":
-            continue  # reported under its own key above
+            rep.check(not bad, "R14.3", "enum_property::transform", "encoding an enum no longer uses `.value`",
+                      where=f"{PKG}/templates/{et.name}", lhs=bad[:2], rhs="<destination> = <source>.value, required and optional alike")
+            continue
         rep.check(not bad, "R14.3", f"enum_property::{name}", "an encoder of the enum template writes neither the member's `.value` nor "
                   "str(<member>): what is sent is not the listed value", where=f"{PKG}/templates/{et.name}", lhs=bad, rhs=".value / str(member)")
     rep.floor("enum_encoders", n_enc, 1)
